@@ -182,8 +182,15 @@ def generate(rng, tier, profile='default'):
     for _ in range(rng.choice((0, 1, 1, 2))):
       src = list(series[rng.randrange(first, len(series))])
       how = rng.choice(('perm', 'rev', 'same_ends', 'same_mean', 'near_dup',
-                        'near_dup', 'affine', 'bitcast'))
-      if how == 'bitcast' and all(isinstance(v, float) for v in src):
+                        'near_dup', 'affine', 'bitcast', 'crc_twin'))
+      if how == 'crc_twin' and n >= 4 and all(
+          isinstance(v, float) and v == v and abs(v) < 1e300 for v in src):
+        # another series with the same CRC-32: a checksum used as identity
+        i, j = rng.sample(range(n), 2)
+        twin = core.crc32_twin(src, i, j)
+        if twin is not None and all(v == v for v in twin):
+          src = twin
+      elif how == 'bitcast' and all(isinstance(v, float) for v in src):
         # another dtype with the very same bytes: the int64 words of the
         # float64 values (what a raw-buffer comparison would confuse)
         import struct  # pylint: disable=g-import-not-at-top
@@ -287,7 +294,18 @@ def generate(rng, tier, profile='default'):
   # always finish by reading the joint verdict and one more quantity
   ops.append({'op': 'read', 'o': 0, 'q': 'tests_ok'})
   ops.append({'op': 'read', 'o': 0, 'q': rng.choice(READ_QS[2:10])})
-  if rng.random() < 0.5:
+  r_par2 = rng.random()
+  if r_par2 < 0.08:
+    # hash twins: different levels with the same hash() (a cache keyed by
+    # hash(args) confuses them); everything else equal
+    a, b = rng.choice(core.HASH_TWINS)
+    which = rng.choice(('sig_level', 'power_level'))
+    if rng.random() < 0.5:
+      a, b = b, a
+    par[which] = a
+    par2 = dict(par)
+    par2[which] = b
+  elif r_par2 < 0.5:
     par2 = _near_par(rng, par)
   else:
     par2 = _gen_par(rng)
